@@ -163,7 +163,9 @@ def random_arch(rng: random.Random, *, dim: int, max_nodes: int, widths=(2, 3, 4
             r_ = rng.random()
             if r_ < 0.12 and sh[p_in]["sp"] - d_ * (k - 1) >= 1 and (dim == 1 or sh[p_in]["spw"] - d_ * (k - 1) >= 1):
                 nd_.update({"valid": True, "causal": False})            # un-padded convolution
-            elif r_ < 0.30 and s == 1 and k > 1 and dim == 1:
+            elif r_ < 0.22 and s == 1 and k > 1 and dim == 1 and ((k - 1) * d_) % 2 == 0 and not nd_["excl"]:
+                nd_.update({"causal": False, "sym": True})              # explicit symmetric ConstantPad1d + un-padded conv
+            elif r_ < 0.34 and s == 1 and k > 1 and dim == 1:
                 nd_.update({"causal": False, "pm": rng.choice(["zeros", "reflect", "replicate", "circular"])})   # 'same' padding
             elif r_ < 0.30 and k > 1 and dim == 2:
                 nd_["pm"] = rng.choice(["zeros", "reflect", "replicate", "circular"])
@@ -270,7 +272,7 @@ def random_arch(rng: random.Random, *, dim: int, max_nodes: int, widths=(2, 3, 4
     return norm_arch(a)
 
 
-def random_masks(rng: random.Random, arch, *, time_masks=True, p_prune=0.4) -> Dict[str, Any]:
+def random_masks(rng: random.Random, arch, *, time_masks=True, p_prune=0.4, noncausal_time=False) -> Dict[str, Any]:
     """Random alive sets per searchable layer and random abstract time masks per stride-1 Conv1d."""
     sh = shapes(arch)
     alive, tm = {}, {}
@@ -279,7 +281,8 @@ def random_masks(rng: random.Random, arch, *, time_masks=True, p_prune=0.4) -> D
             continue
         w = sh[i]["ch"]
         alive[str(i)] = sorted({c for c in range(1, w + 1) if rng.random() > p_prune} | {w})
-        if time_masks and arch["dim"] == 1 and nd["op"] == "conv" and nd["s"] == 1 and nd["causal"]:
+        if time_masks and arch["dim"] == 1 and nd["op"] == "conv" and nd["s"] == 1 and \
+                (nd["causal"] or (noncausal_time and nd.get("sym"))):
             K = nd["k"]
             G = max((K - 1).bit_length(), 1)
             mode = rng.random()
